@@ -154,6 +154,26 @@ pub fn frac_patterns(full: bool) -> Vec<u64> {
             }
         }
     }
+    if full {
+        // every 4-bit and 5-bit pattern, and the complement of every pattern so far (carries rippling through long runs of ones)
+        for a in 0..52u32 {
+            for b in (a + 1)..52 {
+                for c in (b + 1)..52 {
+                    for d in (c + 1)..52 {
+                        let p4 = (1u64 << a) | (1u64 << b) | (1u64 << c) | (1u64 << d);
+                        v.push(p4);
+                        for e in (d + 1)..52 {
+                            v.push(p4 | (1u64 << e));
+                        }
+                    }
+                }
+            }
+        }
+        let n = v.len();
+        for i in 0..n {
+            v.push(ones ^ v[i]);
+        }
+    }
     v.sort_unstable();
     v.dedup();
     v
@@ -400,7 +420,7 @@ impl Driver for C15 {
             rule: format!(
                 "doubles: every binary exponent -256..=251 (16^-64 <= |x| < 16^63) x both signs x {} fraction patterns (0..3, all-ones-0..3 i.e. everything within 3 ulp of every power of two and sixteen, all 1-bit{} patterns, alternating, pi, e) plus +-0; 8-byte reals: exponent byte 0..127 x sign x {} normalised mantissas (first nibble 1..15 with zeros / ones / 1-bit / 2-bit tails, and every low-bit pattern under seven 53-bit prefixes = all rounding cases: below half, tie to even both ways, above half); every edge value also through UNITS/MAG/ANGLE records with write+from_bytes. A state is one value; non-trivial = mantissa/fraction not zero. Also every call sequence of length 2 and 3 over a 36-value alphabet of encode / decode calls (+-x pairs, neighbours, whole numbers around 2^31, extreme reals): the last call must return the exact result whatever was called before (the codec is a pure function). Oracle: exact integer arithmetic (unique normalised encoding; round-to-nearest-even decode).",
                 frac_patterns(tier.is_thorough()).len(),
-                if tier.is_thorough() { ", all 2-bit and all 3-bit" } else { ", edge 2-bit" },
+                if tier.is_thorough() { ", all 2-, 3-, 4- and 5-bit patterns and the complement of each" } else { ", edge 2-bit" },
                 real_mantissas(tier.is_thorough()).len()
             ),
             assumptions: vec!["+0.0 and -0.0 compare equal (the format has one zero)".into()],
